@@ -61,6 +61,32 @@ def run(ctx):
             mn = "%s_v%d" % (mname, v)
             cases.append((kind, rule, what, main.replace(mname, mn)))
             modfiles[len(cases) - 1] = (mn + ".nano", mtext)
+    # fixed witnesses: rule violations in the places a single-point mutation of the base program does not reach
+    W = [("missing-return", "conditional without else in last position",
+          "fn f(a: int) -> int {\n    if (> a 0) {\n        return 1\n    }\n}\nshadow f {\n    assert (== (f 1) 1)\n}\nfn main() -> int {\n    (println (f 0))\n    return 0\n}\nshadow main {\n    assert (== 1 1)\n}\n"),
+         ("immutable", "set inside a block arm of a match used as an expression",
+          "union R {\n    Ok { value: int },\n    Err { error: string }\n}\nfn main() -> int {\n    let r: R = R.Ok { value: 42 }\n    let k: int = 5\n    let y: int = match r {\n        Ok(v) => {\n            set k 9\n            return v.value\n        }\n"
+          "        Err(e) => {\n            return 0\n        }\n    }\n    (println y)\n    (println k)\n    return 0\n}\nshadow main {\n    assert (== 1 1)\n}\n"),
+         ("argument-type", "built-in without parameter record: (str_length 5)",
+          "fn main() -> int {\n    let n: int = (str_length 5)\n    (println n)\n    return 0\n}\nshadow main { assert (== 1 1) }\n"),
+         ("argument-type", "built-in without parameter record: (at arr \"x\")",
+          "fn main() -> int {\n    let arr: array<int> = [1, 2, 3]\n    let i: string = \"x\"\n    let v: int = (at arr i)\n    (println v)\n    return 0\n}\nshadow main { assert (== 1 1) }\n"),
+         ("arity", "call inside a shadow block",
+          "fn f(a: int) -> int { return (+ a 1) }\nshadow f {\n    assert (== (f 1 2) 2)\n}\nfn main() -> int {\n    (println (f 1))\n    return 0\n}\nshadow main { assert (== 1 1) }\n"),
+         ("arity", "call through a function-typed parameter",
+          "fn inc(a: int) -> int { return (+ a 1) }\nshadow inc { assert (== (inc 1) 2) }\nfn app(g: fn(int) -> int, v: int) -> int {\n    return (g v v)\n}\nshadow app { assert (== 1 1) }\nfn main() -> int {\n    (println (app inc 1))\n    return 0\n}\nshadow main { assert (== 1 1) }\n")]
+    for rule, what, text in W:
+        cases.append(("witness", rule, what, text))
+    try:
+        cases.append(("witness", "consumed-resource", "use after consume (tests/test_resource_use_after_consume.nano)", open(os.path.join(tdir, "tests", "test_resource_use_after_consume.nano")).read()))
+    except OSError:
+        pass
+    # the repository's own negative tests: every one of them names a compile-time rule (the two listed ones are run-time errors)
+    import glob as _glob
+    for f in sorted(_glob.glob(os.path.join(tdir, "tests", "negative", "**", "*.nano"), recursive=True)):
+        if os.path.basename(f) in ("array_negative_index.nano",):
+            continue
+        cases.append(("witness", "negative-corpus", "tests/negative/" + os.path.relpath(f, os.path.join(tdir, "tests", "negative")), open(f).read()))
     tools = ["virt-run", "virt-emit", "nanoc"]
     with tempfile.TemporaryDirectory(prefix="nvc05", dir="/var/tmp") as td:
         jobs = []
@@ -94,7 +120,7 @@ def run(ctx):
                     oracle_fail.append({"why": "well-typed base program rejected by %s (the mutation catalogue would be vacuous)" % t, "diag": r["err"], "source": text})
             continue
         per_rule[rule] += 1
-        if model not in ("reject", "parse-error") and not (model == "unsupported" and rule == "extern-outside-unsafe"):
+        if kind != "witness" and model not in ("reject", "parse-error") and not (model == "unsupported" and rule == "extern-outside-unsafe"):
             disagreements.append({"rule": rule, "what": what, "model": model, "expected": "reject", "source": text})
         for t, r in zip(tools, rs):
             if r is None:
